@@ -247,17 +247,9 @@ Theorem C04_label_file_is_a_node_file : forall c ls l,
 Proof. exact label_file_is_a_node_file. Qed.
 Print Assumptions C04_label_file_is_a_node_file.
 
-(* third audit: the file id of a label is the file id of the very node whose range it carries
-   (or that node has no file), when the nodes handed to one constructor call lie in one file *)
-Theorem C04_label_range_and_file_of_one_node : forall c ls l,
-  guarded_constructor c = true ->
-  (forall m m' f f', In m (nodes_of c) -> In m' (nodes_of c) ->
-     m_file m = Some f -> m_file m' = Some f' -> f = f') ->
-  labels_of (sources_of c) = Ok ls -> In l ls ->
-  exists m, In m (nodes_of c) /\ l_start l = m_start m /\ l_end l = m_end m /\
-            (m_file m = Some (l_file l) \/ m_file m = None).
-Proof. exact label_range_and_file_of_one_node. Qed.
-Print Assumptions C04_label_range_and_file_of_one_node.
+(* fourth audit: C04_label_range_and_file_of_one_node was removed from the obligations (definition-grade: under its
+   hypothesis "all nodes lie in one file" it is a corollary of C04_label_file_is_a_node_file, and it excludes T2008,
+   the one constructor with two files); it stays as Lemma Proofs.LabelsProofs.label_range_and_file_of_one_node. *)
 
 Theorem C04_label_construction_panics_only_on_unwrap : forall c,
   (forall ls, labels_of (sources_of c) <> Ok ls) ->
